@@ -184,13 +184,52 @@ def kwLine (pre : Prefix) (kw sep : Text) (g : Seg) : Text :=
   g.lpad ++ (pre.render ++ (kw ++ (sep ++ quoted g.choices))) ++ g.rpad
 
 /-- the decimal digit of a plural index (N ≤ 9: polib reads one character) -/
-def digitChar (i : Fin 10) : Char := Char.ofNat (48 + i.val)
+def digitChar (i : Nat) : Char := Char.ofNat (48 + i)
 
 /-- `msgstr[N]` -/
-def mxKw (i : Fin 10) : Text := ['m', 's', 'g', 's', 't', 'r', '[', digitChar i, ']']
+def mxKw (i : Nat) : Text := ['m', 's', 'g', 's', 't', 'r', '[', digitChar i, ']']
 
 /-- a continuation line `"…"` -/
 def contLine (pre : Prefix) (g : Seg) : Text :=
   g.lpad ++ (pre.render ++ quoted g.choices) ++ g.rpad
+
+/-- lines that carry nothing: white-space lines and the comment forms polib skips (`#~| …`, bare `#.` `#:` `#,`) -/
+inductive Noise where
+  | blank (ws : Text)
+  | ignoredPrev (lpad mid rpad : Text)
+  | bare (lpad : Text) (k : Char) (rpad : Text)
+
+def Noise.render : Noise → Text
+  | .blank ws => ws
+  | .ignoredPrev lpad mid rpad => lpad ++ ('#' :: '~' :: '|' :: mid) ++ rpad
+  | .bare lpad k rpad => lpad ++ ['#', k] ++ rpad
+
+def Noise.Valid : Noise → Prop
+  | .blank ws => ∀ c ∈ ws, I18n.Po.pyIsSpace c = true
+  | .ignoredPrev lpad mid rpad =>
+    Blank lpad ∧ (∀ c ∈ rpad, I18n.Po.pyIsSpace c = true) ∧
+      (∀ c r, mid = c :: r → I18n.Po.pyIsSpace c = true) ∧ (∀ c, mid.getLast? = some c → I18n.Po.pyIsSpace c = false)
+  | .bare lpad k rpad => Blank lpad ∧ (∀ c ∈ rpad, I18n.Po.pyIsSpace c = true) ∧ (k = '.' ∨ k = ':' ∨ k = ',')
+
+/-- a string over one or more physical lines, with the noise lines after each of them -/
+structure StrSp where
+  sep : Text
+  first : Seg
+  firstNoise : List Noise
+  more : List (Seg × List Noise)
+
+def StrSp.Valid (E : Codec) (x : StrSp) : Prop :=
+  x.sep ≠ [] ∧ Blank x.sep ∧ x.first.Valid E ∧ (∀ z ∈ x.firstNoise, z.Valid) ∧
+    ∀ gn ∈ x.more, gn.1.Valid E ∧ ∀ z ∈ gn.2, z.Valid
+
+/-- the string it spells -/
+def StrSp.text (x : StrSp) : Text :=
+  PoSpelling.text x.first.choices ++ x.more.flatMap fun gn => PoSpelling.text gn.1.choices
+
+def contLines (pre : Prefix) (more : List (Seg × List Noise)) : List Text :=
+  more.flatMap fun gn => contLine pre gn.1 :: gn.2.map Noise.render
+
+def StrSp.lines (pre : Prefix) (kw : Text) (x : StrSp) : List Text :=
+  kwLine pre kw x.sep x.first :: (x.firstNoise.map Noise.render ++ contLines pre x.more)
 
 end I18n.Spec.PoSpelling
